@@ -155,3 +155,13 @@ Definition rq_rv_k8 : request :=
      rq_unb := false; rq_revert := 0; rq_target_tx := None; rq_meta := 0%N |}.
 Definition sched_rev_readfail : list action :=
   sched_fund ++ [AStart 1 (rq_c 8 0 [(world, 1%N, 10%Z)]); AStart 4 rq_rv_k8; AResumeReadFail 4].
+
+(* ---- graceful shutdown (Properties/C06.v, C06_close_example) ------------------------------------------------------ *)
+(* request 0 funds account 1 and is acknowledged (tx 0). Request 1 (create, world -> 2) runs up to "wait": the worker
+   was free, its entry IS the batch inside the store call. Request 2 (create, world -> 3) and request 3 (SaveMeta) run
+   up to "wait" as well: their entries are queued in the batcher behind that batch. Then the commander is closed. *)
+Definition sched_close : list action :=
+  sched_fund ++
+  [AStart 1 (rq_c 0 0 [(world, 2%N, 10%Z)])] ++ repeat (AResume 1) 8 ++
+  [AStart 2 (rq_c 0 0 [(world, 3%N, 10%Z)])] ++ repeat (AResume 2) 8 ++
+  [AStart 3 (rq_sm 0 1)] ++ repeat (AResume 3) 3.
